@@ -332,6 +332,35 @@ def run_histories(desc, tier, seed, res, bankkey, values):
                 break
 
 
+def sticky_options(seed, res):
+    """Options given to one value-level write() belong to that call: a later plain write still checks the unit's answers."""
+    from models.membank import RO
+    from models.bus import Bus
+    _mods()
+    for bankkey in BANKS:
+        bank_obj, values = values_of(bankkey)
+        for vi, (name, cls, row) in enumerate(values):
+            if not row.writable or name == "LockByte" or row.kind not in ("str", "u", "cct"):
+                continue
+            v1, v2 = ("Ab", "Cd") if row.kind == "str" else (1, 2)
+            for opts in ({"ignore_feedback": True}, {"force_unlock": True}, {"ignore_feedback": True, "force_unlock": True}):
+                r = rng(seed, "C10", "sticky", bankkey, name)
+                unit, other, bank, ob, addr = make_unit(r, bankkey, ["gear", "device", "int"][vi % 3], 0xFF)
+                res.evaluations += 1
+                res.hit("sticky_option_cases")
+                o1 = attempt(Bus([unit, other], bound=800), cls.write(addr, v1, **opts))
+                if o1[0] != "ok":
+                    res.violation(f"C10/value-write/raised/{type(o1[1]).__name__}", f"{name}.write({v1!r}, {opts}) raised {type(o1[1]).__name__}", {"value": name})
+                    continue
+                # now a unit that refuses the value's first location
+                unit2, other2, bank2, ob2, addr2 = make_unit(rng(seed, "C10", "sticky2", name), bankkey, ["gear", "device", "int"][vi % 3], 0xFF)
+                bank2.access[row.first] = RO
+                o2 = attempt(Bus([unit2, other2], bound=800), cls.write(addr2, v2))
+                if o2[0] == "ok":
+                    res.violation("C10/value-write/options-stick", f"after {name}.write(.., {opts}) a plain {name}.write({v2!r}) on a unit that answers NO "
+                                  "returned normally: the earlier call's options are still in force", {"value": name, "options": sorted(opts)})
+
+
 def checked_write(res, unit, other, bank, ob, addr, name, cls, row, raw, kw, has_lock, wit):
     """One fault-free write_raw against a live unit, judged byte-exactly (lock byte included). False = stop this history."""
     from models.bus import Bus
@@ -451,6 +480,57 @@ def run_synthetic(seed, res):
                     res.violation("C10/write/memory-differs", f"value with access {combo}: {out[0]}; memory not exactly the requested bytes", wit)
                 elif bank.image[2] == 0x55:
                     res.violation("C10/write/left-unlocked", f"value with access {combo}: bank left unlocked", wit)
+    # locations in storage order, not ascending / not contiguous (a little-endian word, a split value)
+    for order in ((0x21, 0x20), (0x30, 0x34), (0x45, 0x44, 0x43), (0x50, 0x52, 0x51), (0x60, 0x61)):
+        for lockable in (False, True):
+            bk = loc.MemoryBank(101, 0x7F, has_lock=True)
+            ty = T.NVM_RW_L if lockable else T.NVM_RW
+            cls = type(f"Scattered{n}", (loc.NumericValue,), {"bank": bk, "locations": tuple(loc.MemoryLocation(a, type_=ty) for a in order)})
+            n += 1
+            image = [0x11] * 255
+            image[0], image[2] = 0x7F, 0xFF
+            bank = Bank(101, image, 0x7F, access={a: (RWL if lockable else RW) for a in order})
+            unit = Gear(short=4, banks={101: bank})
+            bus = Bus([unit], bound=200)
+            raw = bytes(range(0xA0, 0xA0 + len(order)))
+            before = list(bank.image)
+            res.evaluations += 1
+            res.distinct += 1
+            res.hit("scattered_values_written")
+            out = attempt(bus, cls.write_raw(address.GearShort(4), raw))
+            want = list(before)
+            for a, b in zip(order, raw):
+                want[a] = b
+            now = list(bank.image)
+            now[2] = want[2] = None
+            if out[0] != "ok" or now != want:
+                diff = [(hex(l), now[l], want[l]) for l in range(255) if now[l] != want[l]]
+                res.violation("C10/write/scattered-locations", f"value declared at {[hex(a) for a in order]}: write_raw({raw.hex()}) gave {out[0]}; "
+                              f"memory differs at {diff[:4]} (location, stored, requested)", {"order": list(order), "lockable": lockable})
+    # the documented parameter order of write_raw: (addr, raw, allow_short_write, force_unlock, ignore_feedback)
+    import dali.memory.oem as oem
+    _mods()
+    for pos_args, expect in (((False, True), "force_unlock"), ((False, False, True), "ignore_feedback"), ((True,), "allow_short_write")):
+        cls_, row_ = oem.LuminaireColor, None
+        image = [0x22] * 255
+        image[0], image[2] = 0x7F, 0xAA
+        from props.c10 import access_map
+        bank = Bank(1, image, 0x7F, access=access_map("1"))
+        unit = Gear(short=4, banks={1: bank})
+        w = len(cls_.locations)
+        raw = bytes([0x41] * (w if expect != "allow_short_write" else 3))
+        # a unit that refuses the value's second location: only a write that ignores feedback may return normally
+        bank.access[cls_.locations[1].address] = RO
+        bus = Bus([unit], bound=400)
+        res.evaluations += 1
+        res.hit("positional_options_checked")
+        out = attempt(bus, cls_.write_raw(address.GearShort(4), raw, *pos_args))
+        if expect == "ignore_feedback":
+            if out[0] != "ok":
+                res.violation("C10/write/positional-options", f"write_raw(addr, raw, False, False, True) = ignore_feedback raised {type(out[1]).__name__}", {"args": list(pos_args)})
+        elif out[0] == "ok":
+            res.violation("C10/write/positional-options", f"write_raw(addr, raw, {', '.join(map(str, pos_args))}) [{expect}] returned normally although the unit "
+                          "refused a location: the positional options are not the documented ones", {"args": list(pos_args)})
     res.sample({"synthetic_values": n, "access_combinations": "all of width 1..3 over 6 access classes"})
 
 
@@ -520,6 +600,8 @@ def run_shard(desc, tier, seed):
         run_synthetic(seed, res)
     elif desc["bank"] == "first-use":
         run_first_use(desc, tier, seed, res)
+        if not desc["first"]:
+            sticky_options(seed, res)
     elif desc["bank"] == "interleaved":
         run_interleaved(desc, seed, res)
         run_refusals(res)
